@@ -84,21 +84,27 @@ Lemma step_fetch s t c s' ev :
   tget t (threads s) = TIdle /\
   s' = mkState (next_id s + 1) (outs s) (tset t (TFetched (next_id s + 1) c) (threads s)) (services s) (next_tok s) (pending s) /\
   ev = [EFetch t (next_id s + 1) (c_tag c)].
-Proof. cbn [step]. destruct (tget t (threads s)); intros H; inversion H; auto. Qed.
+Proof.
+  unfold step. cbn [step_gen orb]. destruct (in_contract c); [|discriminate].
+  destruct (tget t (threads s)); intros H; inversion H; auto.
+Qed.
+
+Lemma step_fetch_contract s t c s' ev : step s (LFetch t c) = Some (s', ev) -> in_contract c = true.
+Proof. unfold step. cbn [step_gen orb]. destruct (in_contract c); [reflexivity|discriminate]. Qed.
 
 Lemma step_register s t s' ev :
   step s (LRegister t) = Some (s', ev) ->
   exists i c, tget t (threads s) = TFetched i c /\
   s' = mkState (next_id s) (insert i c (outs s)) (tset t (TRegistered i c) (threads s)) (services s) (next_tok s) (pending s) /\
   ev = [ERegister t i (c_tag c)].
-Proof. cbn [step]. destruct (tget t (threads s)) as [|i c|i c]; intros H; inversion H; eauto. Qed.
+Proof. unfold step. cbn [step_gen]. destruct (tget t (threads s)) as [|i c|i c]; intros H; inversion H; eauto. Qed.
 
 Lemma step_send s t s' ev :
   step s (LSend t) = Some (s', ev) ->
   exists i c, tget t (threads s) = TRegistered i c /\
   s' = mkState (next_id s) (outs s) (tset t TIdle (threads s)) (services s) (next_tok s) (pending s) /\
   ev = [ESendRequest i (c_svc c) (c_meth c) (c_req c)].
-Proof. cbn [step]. destruct (tget t (threads s)) as [|i c|i c]; intros H; inversion H; eauto. Qed.
+Proof. unfold step. cbn [step_gen]. destruct (tget t (threads s)) as [|i c|i c]; intros H; inversion H; eauto. Qed.
 
 Lemma step_response s i b s' ev :
   step s (LResponse i b) = Some (s', ev) ->
@@ -108,7 +114,7 @@ Lemma step_response s i b s' ev :
      ev = complete c b)
    \/ (lookup i (outs s) = None /\ s' = s /\ ev = [])).
 Proof.
-  cbn [step]. unfold body_ok.
+  unfold step. cbn [step_gen]. unfold body_ok.
   destruct (rb_resp b) eqn:E1; [|destruct (rb_err b) eqn:E2; [|discriminate]];
   (destruct (lookup i (outs s)) eqn:E; intros H; inversion H; subst;
    (split; [first [left; congruence | right; congruence]|]); [left; eauto | right; auto]).
@@ -117,7 +123,7 @@ Qed.
 Lemma step_response_miss s i b :
   lookup i (outs s) = None -> body_ok b -> step s (LResponse i b) = Some (s, []).
 Proof.
-  intros Hl [H|H]; cbn [step]; rewrite Hl.
+  intros Hl [H|H]; unfold step; cbn [step_gen]; rewrite Hl.
   - destruct (rb_resp b); [reflexivity|congruence].
   - destruct (rb_resp b); [reflexivity|]. destruct (rb_err b); [reflexivity|congruence].
 Qed.
@@ -127,7 +133,7 @@ Lemma step_response_hit s i b c :
   step s (LResponse i b) =
     Some (mkState (next_id s) (remove i (outs s)) (threads s) (services s) (next_tok s) (pending s), complete c b).
 Proof.
-  intros Hl [H|H]; cbn [step]; rewrite Hl.
+  intros Hl [H|H]; unfold step; cbn [step_gen]; rewrite Hl.
   - destruct (rb_resp b); [reflexivity|congruence].
   - destruct (rb_resp b); [reflexivity|]. destruct (rb_err b); [reflexivity|congruence].
 Qed.
@@ -138,17 +144,17 @@ Lemma step_request s r s' ev :
   \/ (exists q, resolve (services s) r = inr q /\
         s' = mkState (next_id s) (outs s) (threads s) (services s) (S (next_tok s)) ((next_tok s, rq_id r) :: pending s) /\
         ev = [EDispatch (next_tok s) (rq_id r) (rq_svc r) (rq_meth r) q]).
-Proof. cbn [step]. destruct (resolve (services s) r) as [e|q]; intros H; inversion H; eauto. Qed.
+Proof. unfold step. cbn [step_gen]. destruct (resolve (services s) r) as [e|q]; intros H; inversion H; eauto. Qed.
 
 Lemma step_done s k m s' ev :
   step s (LDone k m) = Some (s', ev) ->
   exists i, nlookup k (pending s) = Some i /\
     s' = mkState (next_id s) (outs s) (threads s) (services s) (next_tok s) (nremove k (pending s)) /\
     ev = [ESendResponse i (RReply m)].
-Proof. cbn [step]. destruct (nlookup k (pending s)) as [i|]; intros H; inversion H; eauto. Qed.
+Proof. unfold step. cbn [step_gen]. destruct (nlookup k (pending s)) as [i|]; intros H; inversion H; eauto. Qed.
 
 Lemma step_other s i s' ev : step s (LOther i) = Some (s', ev) -> s' = s /\ ev = [].
-Proof. cbn [step]. intros H; inversion H; auto. Qed.
+Proof. unfold step. cbn [step_gen]. intros H; inversion H; auto. Qed.
 
 Lemma resolve_error_code svcs r e :
   resolve svcs r = inl e -> e = NO_SERVICE \/ e = NO_METHOD \/ e = INVALID_REQUEST.
@@ -164,8 +170,8 @@ Lemma exec_cons s l r s'' tr :
   exec s (l :: r) = Some (s'', tr) ->
   exists s' ev tr', step s l = Some (s', ev) /\ exec s' r = Some (s'', tr') /\ tr = (l, ev) :: tr'.
 Proof.
-  cbn [exec]. destruct (step s l) as [[s' ev]|] eqn:E1; [|discriminate].
-  destruct (exec s' r) as [[s3 tr']|] eqn:E2; [|discriminate].
+  unfold exec, step. cbn [exec_gen]. destruct (step_gen false s l) as [[s' ev]|] eqn:E1; [|discriminate].
+  destruct (exec_gen false s' r) as [[s3 tr']|] eqn:E2; [|discriminate].
   intros H; inversion H; subst. exists s', ev, tr'. auto.
 Qed.
 
@@ -177,7 +183,7 @@ Proof.
   - exists s, [], tr. auto.
   - cbn [app] in H. apply exec_cons in H. destruct H as (s' & ev & tr' & Hs & He & ->).
     apply IH in He. destruct He as (s1 & tr1 & tr2 & H1 & H2 & ->).
-    exists s1, ((l, ev) :: tr1), tr2. cbn [exec]. rewrite Hs, H1. auto.
+    exists s1, ((l, ev) :: tr1), tr2. unfold exec, step in *. cbn [exec_gen]. rewrite Hs, H1. auto.
 Qed.
 
 Lemma events_cons l ev tr : events ((l, ev) :: tr) = ev ++ events tr.
@@ -466,16 +472,58 @@ Proof.
     exists b1. right. exact Hb1.
 Qed.
 
+(* every call the model accepted is in contract (the guard of LFetch), wherever it is kept *)
+Definition cinv (s : state) : Prop :=
+  (forall i c, lookup i (outs s) = Some c -> in_contract c = true) /\
+  (forall t i c, tget t (threads s) = TFetched i c -> in_contract c = true).
+
+Lemma cinv_init svcs : cinv (init svcs).
+Proof. split; cbn; intros; discriminate. Qed.
+
+Lemma cinv_step s l s' ev : cinv s -> step s l = Some (s', ev) -> cinv s'.
+Proof.
+  intros [HO HT] H. destruct l as [t d|t|t|i b|r|k m|i].
+  - pose proof (step_fetch_contract _ _ _ _ _ H) as Hc.
+    apply step_fetch in H. destruct H as (_ & -> & _). split; cbn [outs threads]; [exact HO|].
+    intros u i c. rewrite tget_tset. destruct (Nat.eq_dec t u) as [->|Hne]; intros Hu; [inversion Hu; subst; exact Hc|eapply HT; eauto].
+  - apply step_register in H. destruct H as (i & d & Hg & -> & _). split; cbn [outs threads].
+    + intros j c. destruct (Z.eq_dec i j) as [->|Hne].
+      * rewrite lookup_insert_same. intros E; inversion E; subst. eapply HT; eauto.
+      * rewrite lookup_insert_other by exact Hne. apply HO.
+    + intros u j c. rewrite tget_tset. destruct (Nat.eq_dec t u) as [->|Hne]; intros Hu; [discriminate|eapply HT; eauto].
+  - apply step_send in H. destruct H as (i & d & Hg & -> & _). split; cbn [outs threads]; [exact HO|].
+    intros u j c. rewrite tget_tset. destruct (Nat.eq_dec t u) as [->|Hne]; intros Hu; [discriminate|eapply HT; eauto].
+  - apply step_response in H. destruct H as (_ & [(d & Hl & -> & _)|(_ & -> & _)]); [|split; assumption].
+    split; cbn [outs threads]; [|exact HT].
+    intros j c. destruct (Z.eq_dec i j) as [->|Hne]; [rewrite lookup_remove_same; discriminate|].
+    rewrite lookup_remove_other by exact Hne. apply HO.
+  - apply step_request in H. destruct H as [(e & _ & -> & _)|(q & _ & -> & _)]; split; assumption.
+  - apply step_done in H. destruct H as (i & _ & -> & _). split; assumption.
+  - apply step_other in H. destruct H as (-> & _). split; assumption.
+Qed.
+
+Lemma cinv_exec s ls s' tr : cinv s -> exec s ls = Some (s', tr) -> cinv s'.
+Proof.
+  revert s tr. induction ls as [|l r IH]; intros s tr Hi H.
+  - inversion H; subst. exact Hi.
+  - apply exec_cons in H. destruct H as (s1 & ev & tr' & Hs & He & _). eapply IH; [|exact He]. eapply cinv_step; eauto.
+Qed.
+
+Lemma registered_in_contract svcs ls s tr i c :
+  exec (init svcs) ls = Some (s, tr) -> lookup i (outs s) = Some c -> in_contract c = true.
+Proof. intros H Hl. exact (proj1 (cinv_exec _ _ _ _ (cinv_init svcs) H) _ _ Hl). Qed.
+
 Lemma once_if_answered svcs l1 l2 s1 tr1 s' tr i c :
   exec (init svcs) l1 = Some (s1, tr1) ->
   lookup i (outs s1) = Some c ->
   exec (init svcs) (l1 ++ l2) = Some (s', tr) ->
   (exists b, In (LResponse i b) l2) ->
   NoDup (fetch_tags (l1 ++ l2)) ->
-  c_resp c = true -> c_done c = true ->
+  c_done c = true ->
   count_occ Nat.eq_dec (run_tags (events tr)) (c_tag c) = 1%nat.
 Proof.
-  intros H1 Hl H Hb Hnd Hr Hd.
+  intros H1 Hl H Hb Hnd Hd.
+  pose proof (registered_in_contract _ _ _ _ _ _ H1 Hl) as Hr. unfold in_contract in Hr.
   pose proof (closure_at_most_once _ _ _ _ (c_tag c) H Hnd) as Hle.
   apply exec_app in H. destruct H as (s1' & tr1' & tr2 & H1' & H2 & ->).
   rewrite H1 in H1'. inversion H1'; subst s1' tr1'.
@@ -894,4 +942,321 @@ Proof.
   - eapply done_at_most_once; [|exact H]. intros k i E. discriminate.
   - intros l ev i r Hin Hr. destruct (exec_in_step _ _ _ _ _ _ H Hin) as (s0 & s1 & Hs & _).
     eapply step_reply_label; eauto.
+Qed.
+
+(* ------------------------------------------------------------------ the response object is deleted at most once *)
+Lemma dels_complete c d b : (cnt c (del_tags (complete d b)) <= cnt c [c_tag d])%nat.
+Proof.
+  unfold complete. destruct (c_resp d), (c_done d); cbn [del_tags flat_map app]; cbn; lia.
+Qed.
+
+Lemma step_budget_del c s l s' ev :
+  step s l = Some (s', ev) ->
+  (cnt c (del_tags ev) + cnt c (live s') <= cnt c (live s) + cnt c (fetch_tags [l]))%nat.
+Proof.
+  unfold live. rewrite !cnt_app.
+  destruct l as [t d|t|t|i b|r|k m|i]; intros H.
+  - apply step_fetch in H. destruct H as (Hg & -> & ->). cbn [outs threads del_tags flat_map app].
+    rewrite cnt_tset. pose proof (cnt_tget c t (threads s)) as Ht. rewrite Hg in Ht.
+    cbn [ts_tags fetch_tags flat_map app] in *. change (cnt c []) with 0%nat in *. lia.
+  - apply step_register in H. destruct H as (i & d & Hg & -> & ->). cbn [outs threads del_tags flat_map app].
+    rewrite cnt_tset. pose proof (cnt_tget c t (threads s)) as Ht. rewrite Hg in Ht.
+    pose proof (cnt_insert c i d (outs s)).
+    cbn [ts_tags fetch_tags flat_map app] in *. change (cnt c []) with 0%nat in *. lia.
+  - apply step_send in H. destruct H as (i & d & Hg & -> & ->). cbn [outs threads del_tags flat_map app].
+    rewrite cnt_tset. pose proof (cnt_nremove_le c t (threads s)).
+    cbn [ts_tags fetch_tags flat_map app] in *. change (cnt c []) with 0%nat in *. lia.
+  - apply step_response in H. destruct H as (_ & [(d & Hl & -> & ->)|(_ & -> & ->)]); cbn [outs threads].
+    + pose proof (cnt_remove c i d (outs s) Hl). pose proof (dels_complete c d b). lia.
+    + cbn [del_tags flat_map]. change (cnt c []) with 0%nat. lia.
+  - apply step_request in H. destruct H as [(e & _ & -> & ->)|(q & _ & -> & ->)]; cbn [outs threads del_tags flat_map app];
+      change (cnt c []) with 0%nat; lia.
+  - apply step_done in H. destruct H as (i & _ & -> & ->). cbn [outs threads del_tags flat_map app].
+    change (cnt c []) with 0%nat. lia.
+  - apply step_other in H. destruct H as (-> & ->). cbn [del_tags flat_map]. change (cnt c []) with 0%nat. lia.
+Qed.
+
+Lemma del_tags_app a b : del_tags (a ++ b) = del_tags a ++ del_tags b.
+Proof. unfold del_tags. apply flat_map_app. Qed.
+
+Lemma exec_budget_del c s ls s' tr :
+  exec s ls = Some (s', tr) ->
+  (cnt c (del_tags (events tr)) + cnt c (live s') <= cnt c (live s) + cnt c (fetch_tags ls))%nat.
+Proof.
+  revert s tr. induction ls as [|l r IH]; intros s tr H.
+  - inversion H; subst. cbn. lia.
+  - apply exec_cons in H. destruct H as (s1 & ev & tr' & Hs & He & ->).
+    apply IH in He. apply (step_budget_del c) in Hs.
+    rewrite events_cons, del_tags_app, fetch_tags_cons, !cnt_app. lia.
+Qed.
+
+Lemma response_deleted_at_most_once svcs ls s' tr c :
+  exec (init svcs) ls = Some (s', tr) ->
+  NoDup (fetch_tags ls) ->
+  (count_occ Nat.eq_dec (del_tags (events tr)) c <= 1)%nat.
+Proof.
+  intros He Hnd. pose proof (exec_budget_del c _ _ _ _ He) as Hb.
+  pose proof (proj1 (NoDup_count_occ Nat.eq_dec (fetch_tags ls)) Hnd c) as Hc.
+  unfold cnt in *. cbn in Hb. lia.
+Qed.
+
+Lemma deleted_once_if_answered svcs l1 l2 s1 tr1 s' tr i c :
+  exec (init svcs) l1 = Some (s1, tr1) ->
+  lookup i (outs s1) = Some c ->
+  exec (init svcs) (l1 ++ l2) = Some (s', tr) ->
+  (exists b, In (LResponse i b) l2) ->
+  NoDup (fetch_tags (l1 ++ l2)) ->
+  count_occ Nat.eq_dec (del_tags (events tr)) (c_tag c) = 1%nat.
+Proof.
+  intros H1 Hl H Hb Hnd.
+  pose proof (registered_in_contract _ _ _ _ _ _ H1 Hl) as Hr. unfold in_contract in Hr.
+  pose proof (response_deleted_at_most_once _ _ _ _ (c_tag c) H Hnd) as Hle.
+  apply exec_app in H. destruct H as (s1' & tr1' & tr2 & H1' & H2 & ->).
+  rewrite H1 in H1'. inversion H1'; subst s1' tr1'.
+  destruct (answered _ _ _ _ i c (inv_exec _ _ _ _ (inv_init svcs) H1) Hl H2 Hb) as [b Hin].
+  assert (In (c_tag c) (del_tags (events (tr1 ++ tr2)))) as Hdel.
+  { rewrite events_app, del_tags_app. apply in_or_app. right.
+    unfold del_tags, events. apply in_flat_map. exists (EDelete (c_tag c)). split; [|left; reflexivity].
+    apply in_flat_map. exists (LResponse i b, complete c b). split; [exact Hin|].
+    cbn [snd]. unfold complete. rewrite Hr. apply in_or_app. right. left. reflexivity. }
+  apply (count_occ_In Nat.eq_dec) in Hdel. lia.
+Qed.
+
+(* ------------------------------------------------------------------ which labels are rejected, exactly *)
+Definition rejected (s : state) (l : label) : Prop :=
+  match l with
+  | LFetch t c => tget t (threads s) <> TIdle \/ in_contract c = false
+  | LRegister t => forall i c, tget t (threads s) <> TFetched i c
+  | LSend t => forall i c, tget t (threads s) <> TRegistered i c
+  | LResponse i b => ~ body_ok b
+  | LDone k m => nlookup k (pending s) = None
+  | LRequest _ => False
+  | LOther _ => False
+  end.
+
+Lemma rejected_iff s l : step s l = None <-> rejected s l.
+Proof.
+  unfold step. destruct l as [t c|t|t|i b|r|k m|i]; cbn [step_gen rejected orb].
+  - destruct (in_contract c) eqn:Ec.
+    + destruct (tget t (threads s)) eqn:Et.
+      * split; [discriminate|intros [H|H]; [congruence|discriminate]].
+      * split; [intros _; left; discriminate|reflexivity].
+      * split; [intros _; left; discriminate|reflexivity].
+    + split; [intros _; right; reflexivity|reflexivity].
+  - destruct (tget t (threads s)) as [|i c|i c] eqn:Et.
+    + split; [intros _ i0 c0; discriminate|reflexivity].
+    + split; [discriminate|intros H; exfalso; apply (H i c); reflexivity].
+    + split; [intros _ i0 c0; discriminate|reflexivity].
+  - destruct (tget t (threads s)) as [|i c|i c] eqn:Et.
+    + split; [intros _ i0 c0; discriminate|reflexivity].
+    + split; [intros _ i0 c0; discriminate|reflexivity].
+    + split; [discriminate|intros H; exfalso; apply (H i c); reflexivity].
+  - unfold body_ok. destruct (rb_resp b) as [p|] eqn:E1.
+    + destruct (lookup i (outs s)); (split; [discriminate|intros H; exfalso; apply H; left; discriminate]).
+    + destruct (rb_err b) as [e|] eqn:E2.
+      * destruct (lookup i (outs s)); (split; [discriminate|intros H; exfalso; apply H; right; discriminate]).
+      * split; [intros _ [H|H]; congruence|reflexivity].
+  - destruct (resolve (services s) r); (split; [discriminate|intros []]).
+  - destruct (nlookup k (pending s)); split; try discriminate; auto.
+  - split; [discriminate|intros []].
+Qed.
+
+Lemma history_in_contract s ls s' tr t c :
+  exec s ls = Some (s', tr) -> In (LFetch t c) ls -> in_contract c = true.
+Proof.
+  revert s tr. induction ls as [|l r IH]; intros s tr H Hin; [destruct Hin|].
+  apply exec_cons in H. destruct H as (s1 & ev & tr' & Hs & He & _).
+  destruct Hin as [->|Hin]; [eapply step_fetch_contract; eauto|eapply IH; eauto].
+Qed.
+
+(* ------------------------------------------------------------------ an id nobody fetched is never registered *)
+Lemma exec_hinv past s ls s' tr : hinv past s -> exec s ls = Some (s', tr) -> hinv (past ++ events tr) s'.
+Proof.
+  revert past s tr. induction ls as [|l r IH]; intros past s tr Hh H.
+  - inversion H; subst. cbn. rewrite app_nil_r. exact Hh.
+  - apply exec_cons in H. destruct H as (s1 & ev & tr' & Hs & He & ->).
+    rewrite events_cons, app_assoc. eapply IH; [|exact He]. eapply hinv_step; eauto.
+Qed.
+
+Lemma in_fetched_ids t i c evs : In (EFetch t i c) evs -> In i (fetched_ids evs).
+Proof.
+  intros H. unfold fetched_ids. apply in_flat_map. exists (EFetch t i c). split; [exact H|left; reflexivity].
+Qed.
+
+Lemma never_fetched_unknown svcs ls s tr i :
+  exec (init svcs) ls = Some (s, tr) -> ~ In i (fetched_ids (events tr)) -> lookup i (outs s) = None.
+Proof.
+  intros H Hn. pose proof (exec_hinv [] _ _ _ _ (hinv_init svcs) H) as [HO _]. cbn [app] in HO.
+  destruct (lookup i (outs s)) as [c|] eqn:E; [|reflexivity].
+  destruct (HO _ _ E) as [t Ht]. exfalso. apply Hn. eapply in_fetched_ids; eauto.
+Qed.
+
+(* ------------------------------------------------------------------ registration precedes the send *)
+Definition rinv (pastl : list label) (past : list event) (s : state) : Prop :=
+  forall t i c, tget t (threads s) = TRegistered i c ->
+    In (EFetch t i (c_tag c)) past /\ In (ERegister t i (c_tag c)) past /\
+    (lookup i (outs s) = Some c \/ exists b, In (LResponse i b) pastl).
+
+Lemma rinv_init svcs : rinv [] [] (init svcs).
+Proof. intros t i c H. discriminate. Qed.
+
+Lemma rinv_step pastl past s l s' ev :
+  inv s -> hinv past s -> rinv pastl past s -> step s l = Some (s', ev) -> rinv (pastl ++ [l]) (past ++ ev) s'.
+Proof.
+  intros [HK HF HD] [HO HT] HR H.
+  assert (forall t i c, tget t (threads s) = TRegistered i c ->
+            In (EFetch t i (c_tag c)) (past ++ ev) /\ In (ERegister t i (c_tag c)) (past ++ ev) /\
+            (lookup i (outs s) = Some c \/ exists b, In (LResponse i b) (pastl ++ [l]))) as HR'.
+  { intros t i c Hg. destruct (HR _ _ _ Hg) as (A & B & C). repeat split; try (apply in_or_app; auto).
+    destruct C as [C|[b C]]; [left; exact C|right; exists b; apply in_or_app; auto]. }
+  destruct l as [t d|t|t|j b|r|k m|j].
+  - apply step_fetch in H. destruct H as (_ & -> & ->). intros u i c. cbn [outs threads].
+    rewrite tget_tset. destruct (Nat.eq_dec t u) as [->|Hne]; intros Hu; [discriminate|]. apply HR'. exact Hu.
+  - apply step_register in H. destruct H as (j & d & Hg & -> & ->). intros u i c. cbn [outs threads].
+    rewrite tget_tset. destruct (Nat.eq_dec t u) as [->|Hne]; intros Hu.
+    + inversion Hu; subst. repeat split.
+      * apply in_or_app. left. eapply HT; eauto.
+      * apply in_or_app. right. left. reflexivity.
+      * left. apply lookup_insert_same.
+    + destruct (HR' _ _ _ Hu) as (A & B & C). repeat split; auto.
+      destruct C as [C|C]; [left|right; exact C].
+      assert (j <> i) as Hji by (intros ->; apply HF in Hg; destruct Hg; congruence).
+      rewrite lookup_insert_other by exact Hji. exact C.
+  - apply step_send in H. destruct H as (j & d & Hg & -> & ->). intros u i c. cbn [outs threads].
+    rewrite tget_tset. destruct (Nat.eq_dec t u) as [->|Hne]; intros Hu; [discriminate|]. apply HR'. exact Hu.
+  - apply step_response in H. destruct H as (_ & [(d & Hl & -> & ->)|(_ & -> & ->)]); [|rewrite app_nil_r in *; exact HR'].
+    intros u i c Hu. cbn [outs threads] in *. destruct (HR' _ _ _ Hu) as (A & B & C). repeat split; auto.
+    destruct (Z.eq_dec j i) as [->|Hne].
+    + right. exists b. apply in_or_app. right. left. reflexivity.
+    + destruct C as [C|C]; [left|right; exact C]. rewrite lookup_remove_other by exact Hne. exact C.
+  - apply step_request in H. destruct H as [(e & _ & -> & ->)|(q & _ & -> & ->)]; exact HR'.
+  - apply step_done in H. destruct H as (i & _ & -> & ->). exact HR'.
+  - apply step_other in H. destruct H as (-> & ->). exact HR'.
+Qed.
+
+Lemma exec_rinv pastl past s ls s' tr :
+  inv s -> hinv past s -> rinv pastl past s -> exec s ls = Some (s', tr) ->
+  rinv (pastl ++ ls) (past ++ events tr) s'.
+Proof.
+  revert pastl past s tr. induction ls as [|l r IH]; intros pastl past s tr Hi Hh Hr H.
+  - inversion H; subst. cbn. rewrite !app_nil_r. exact Hr.
+  - apply exec_cons in H. destruct H as (s1 & ev & tr' & Hs & He & ->).
+    rewrite events_cons, app_assoc. change (l :: r) with ([l] ++ r). rewrite app_assoc.
+    eapply IH; [| | |exact He]; eauto using inv_step, hinv_step, rinv_step.
+Qed.
+
+Lemma registered_before_sent svcs l1 t s1 tr1 s2 ev :
+  exec (init svcs) l1 = Some (s1, tr1) -> step s1 (LSend t) = Some (s2, ev) ->
+  exists i c, ev = [ESendRequest i (c_svc c) (c_meth c) (c_req c)] /\
+    In (EFetch t i (c_tag c)) (events tr1) /\ In (ERegister t i (c_tag c)) (events tr1) /\
+    (lookup i (outs s1) = Some c \/ exists b, In (LResponse i b) l1).
+Proof.
+  intros H1 Hs. pose proof (exec_rinv [] [] _ _ _ _ (inv_init svcs) (hinv_init svcs) (rinv_init svcs) H1) as HR.
+  cbn [app] in HR. apply step_send in Hs. destruct Hs as (i & c & Hg & _ & ->).
+  destruct (HR _ _ _ Hg) as (A & B & C). exists i, c. auto.
+Qed.
+
+(* ------------------------------------------------------------------ serving side: more *)
+Lemma resolve_cases svcs r :
+  match resolve svcs r with
+  | inl NO_SERVICE => svcs = None \/ exists m, svcs = Some m /\ find_service (rq_svc r) m = None
+  | inl NO_METHOD => exists m ms, svcs = Some m /\ find_service (rq_svc r) m = Some ms /\ has_method (rq_meth r) ms = false
+  | inl INVALID_REQUEST => exists m ms, svcs = Some m /\ find_service (rq_svc r) m = Some ms /\
+                                        has_method (rq_meth r) ms = true /\ parse (rq_req r) = None
+  | inl _ => False
+  | inr q => exists m ms, svcs = Some m /\ find_service (rq_svc r) m = Some ms /\
+                          has_method (rq_meth r) ms = true /\ parse (rq_req r) = Some q
+  end.
+Proof.
+  unfold resolve. destruct svcs as [m|]; [|left; reflexivity].
+  destruct (find_service (rq_svc r) m) as [ms|] eqn:E1; [|right; eauto].
+  destruct (has_method (rq_meth r) ms) eqn:E2; [|eauto 6].
+  destruct (parse (rq_req r)) as [q|] eqn:E3; eauto 8.
+Qed.
+
+Lemma step_dispatch_origin s l s' ev k i svc meth q :
+  step s l = Some (s', ev) -> In (EDispatch k i svc meth q) ev ->
+  exists rq, l = LRequest rq /\ i = rq_id rq /\ svc = rq_svc rq /\ meth = rq_meth rq /\ resolve (services s) rq = inr q.
+Proof.
+  destruct l as [t d|t|t|j b|r|k0 m|j]; intros H Hin.
+  - apply step_fetch in H. destruct H as (_ & _ & ->). destruct Hin as [E|[]]; discriminate.
+  - apply step_register in H. destruct H as (j & d & _ & _ & ->). destruct Hin as [E|[]]; discriminate.
+  - apply step_send in H. destruct H as (j & d & _ & _ & ->). destruct Hin as [E|[]]; discriminate.
+  - apply step_response in H. destruct H as (_ & [(d & _ & _ & ->)|(_ & _ & ->)]); [|destruct Hin].
+    unfold complete in Hin. destruct (c_resp d), (c_done d); cbn in Hin;
+      repeat (destruct Hin as [Hin|Hin]; try discriminate); contradiction.
+  - apply step_request in H. destruct H as [(e & _ & _ & ->)|(q0 & Hr & _ & ->)].
+    + destruct Hin as [E|[]]. discriminate.
+    + destruct Hin as [E|[]]. inversion E; subst. exists r. auto.
+  - apply step_done in H. destruct H as (j & _ & _ & ->). destruct Hin as [E|[]]; discriminate.
+  - apply step_other in H. destruct H as (_ & ->). destruct Hin.
+Qed.
+
+Lemma dispatch_origin svcs ls s' tr l ev k i svc meth q :
+  exec (init svcs) ls = Some (s', tr) -> In (l, ev) tr -> In (EDispatch k i svc meth q) ev ->
+  exists rq, l = LRequest rq /\ i = rq_id rq /\ svc = rq_svc rq /\ meth = rq_meth rq /\ resolve svcs rq = inr q.
+Proof.
+  intros H Hin Hd. destruct (exec_in_step _ _ _ _ _ _ H Hin) as (s0 & s1 & Hs & Hsv).
+  change (services (init svcs)) with svcs in Hsv. rewrite <- Hsv. eapply step_dispatch_origin; eauto.
+Qed.
+
+(* ------------------------------------------------------------------ the statements of Properties_C19, assembled *)
+Lemma calls_in_contract svcs ls s tr :
+  exec (init svcs) ls = Some (s, tr) ->
+  (forall t c, In (LFetch t c) ls -> in_contract c = true) /\
+  (forall i c, lookup i (outs s) = Some c -> in_contract c = true).
+Proof.
+  intros H. split; [intros t c; exact (history_in_contract _ _ _ _ t c H)|intros i c; exact (registered_in_contract _ _ _ _ i c H)].
+Qed.
+
+Lemma ids_unique svcs ls s' tr :
+  exec (init svcs) ls = Some (s', tr) ->
+  NoDup (fetched_ids (events tr)) /\
+  forall i, In i (fetched_ids (events tr)) -> 0 < i <= next_id s'.
+Proof.
+  intros H. destruct (exec_ids _ _ _ _ H) as (_ & Hin & Hnd). split; [exact Hnd|exact Hin].
+Qed.
+
+Lemma once_if_answered_full svcs l1 l2 s1 tr1 s' tr i c :
+  exec (init svcs) l1 = Some (s1, tr1) ->
+  lookup i (outs s1) = Some c ->
+  exec (init svcs) (l1 ++ l2) = Some (s', tr) ->
+  (exists b, In (LResponse i b) l2) ->
+  NoDup (fetch_tags (l1 ++ l2)) ->
+  (c_done c = true -> count_occ Nat.eq_dec (run_tags (events tr)) (c_tag c) = 1%nat) /\
+  count_occ Nat.eq_dec (del_tags (events tr)) (c_tag c) = 1%nat.
+Proof.
+  intros H1 Hl H Hb Hnd. split.
+  - exact (once_if_answered _ _ _ _ _ _ _ _ _ H1 Hl H Hb Hnd).
+  - exact (deleted_once_if_answered _ _ _ _ _ _ _ _ _ H1 Hl H Hb Hnd).
+Qed.
+
+Lemma unknown_or_consumed_ignored_full :
+  (forall s i b, lookup i (outs s) = None -> body_ok b -> step s (LResponse i b) = Some (s, [])) /\
+  (forall svcs ls s tr i,
+      exec (init svcs) ls = Some (s, tr) -> ~ In i (fetched_ids (events tr)) -> lookup i (outs s) = None) /\
+  (forall svcs l1 s1 tr1 i c b1 l2 s2 tr2 b2,
+      exec (init svcs) l1 = Some (s1, tr1) -> lookup i (outs s1) = Some c ->
+      exec s1 (LResponse i b1 :: l2) = Some (s2, tr2) -> body_ok b2 ->
+      step s2 (LResponse i b2) = Some (s2, [])).
+Proof.
+  split; [exact (proj1 unknown_or_consumed_ignored)|]. split; [exact never_fetched_unknown|exact (proj2 unknown_or_consumed_ignored)].
+Qed.
+
+Lemma server_one_reply_full svcs ls s' tr :
+  exec (init svcs) ls = Some (s', tr) ->
+  (forall rq ev, In (LRequest rq, ev) tr ->
+     (exists e, resolve svcs rq = inl e /\ (e = NO_SERVICE \/ e = NO_METHOD \/ e = INVALID_REQUEST) /\
+                ev = [ESendResponse (rq_id rq) (RError e)]) \/
+     (exists k q, resolve svcs rq = inr q /\ ev = [EDispatch k (rq_id rq) (rq_svc rq) (rq_meth rq) q])) /\
+  NoDup (dispatch_toks (events tr)) /\
+  (forall k m ev, In (LDone k m, ev) tr ->
+     exists i svc meth q, In (EDispatch k i svc meth q) (events tr) /\ ev = [ESendResponse i (RReply m)]) /\
+  NoDup (done_toks ls) /\
+  (forall l ev i r, In (l, ev) tr -> In (ESendResponse i r) ev -> replies_label l = true) /\
+  (forall l ev k i svc meth q, In (l, ev) tr -> In (EDispatch k i svc meth q) ev ->
+     exists rq, l = LRequest rq /\ i = rq_id rq /\ svc = rq_svc rq /\ meth = rq_meth rq /\ resolve svcs rq = inr q).
+Proof.
+  intros H. destruct (server_one_reply _ _ _ _ H) as (A & B & C & D & E).
+  repeat (split; [assumption|]). intros l ev k i svc meth q. exact (dispatch_origin _ _ _ _ l ev k i svc meth q H).
 Qed.
